@@ -359,6 +359,96 @@ theorem component_is_whole (edges : List (Node × Node)) (v w : Node) (r : Reach
 theorem component_iff (edges : List (Node × Node)) (v w : Node) : w ∈ componentOf edges v ↔ Reach edges v w :=
   ⟨component_is_connected edges v w, component_is_whole edges v w⟩
 
+/-! ### the list of networks is a partition of the node set into connected components -/
+
+theorem Reach.trans {edges : List (Node × Node)} {u v w : Node} (h1 : Reach edges u v) (h2 : Reach edges v w) : Reach edges u w := by
+  induction h2 with
+  | refl => exact h1
+  | step _ he ih => exact Reach.step ih he
+
+theorem Reach.symm {edges : List (Node × Node)} {u v : Node} (h : Reach edges u v) : Reach edges v u := by
+  induction h with
+  | refl => exact Reach.refl _
+  | step _ he ih =>
+    exact Reach.trans (Reach.step (Reach.refl _) (by rcases he with he | he; exact Or.inr he; exact Or.inl he)) ih
+
+theorem self_mem_component (edges : List (Node × Node)) (v : Node) : v ∈ componentOf edges v :=
+  component_is_whole edges v v (Reach.refl v)
+
+/-- invariant of the fold that collects the components: every collected list is the component of one of the nodes handled so far, every
+handled node lies in a collected list, and two collected lists never share a node -/
+structure CompInv (edges : List (Node × Node)) (handled : List Node) (acc : List (List Node)) : Prop where
+  isComp : ∀ c ∈ acc, ∃ v ∈ handled, c = componentOf edges v
+  covers : ∀ v ∈ handled, ∃ c ∈ acc, v ∈ c
+  disjoint : acc.Pairwise fun c d => ∀ x, x ∈ c → x ∉ d
+
+theorem components_fold (edges : List (Node × Node)) (todo handled : List Node) (acc : List (List Node)) (h : CompInv edges handled acc) :
+    CompInv edges (handled ++ todo)
+      (todo.foldl (fun acc v => if acc.any (·.contains v) then acc else acc ++ [componentOf edges v]) acc) := by
+  induction todo generalizing handled acc with
+  | nil => simpa using h
+  | cons v rest ih =>
+    simp only [List.foldl_cons]
+    have e : handled ++ v :: rest = (handled ++ [v]) ++ rest := by simp
+    rw [e]
+    apply ih
+    by_cases hv : acc.any (·.contains v) = true
+    · simp only [hv, if_true]
+      refine ⟨?_, ?_, h.disjoint⟩
+      · intro c hc
+        obtain ⟨u, hu, e⟩ := h.isComp c hc
+        exact ⟨u, List.mem_append_left _ hu, e⟩
+      · intro u hu
+        rcases List.mem_append.mp hu with hu | hu
+        · exact h.covers u hu
+        · simp only [List.mem_singleton] at hu
+          subst hu
+          rw [List.any_eq_true] at hv
+          obtain ⟨c, hc, hcv⟩ := hv
+          exact ⟨c, hc, by simpa using hcv⟩
+    · have hv' : ∀ c ∈ acc, v ∉ c := by
+        intro c hc hvc
+        exact hv (List.any_eq_true.mpr ⟨c, hc, by simpa using hvc⟩)
+      simp only [hv, if_false, Bool.false_eq_true]
+      refine ⟨?_, ?_, ?_⟩
+      · intro c hc
+        rcases List.mem_append.mp hc with hc | hc
+        · obtain ⟨u, hu, e⟩ := h.isComp c hc
+          exact ⟨u, List.mem_append_left _ hu, e⟩
+        · simp only [List.mem_singleton] at hc
+          exact ⟨v, by simp, hc⟩
+      · intro u hu
+        rcases List.mem_append.mp hu with hu | hu
+        · obtain ⟨c, hc, huc⟩ := h.covers u hu
+          exact ⟨c, List.mem_append_left _ hc, huc⟩
+        · simp only [List.mem_singleton] at hu
+          subst hu
+          exact ⟨componentOf edges u, by simp, self_mem_component edges u⟩
+      · rw [List.pairwise_append]
+        refine ⟨h.disjoint, List.pairwise_singleton _ _, ?_⟩
+        intro c hc d hd x hxc hxd
+        simp only [List.mem_singleton] at hd
+        subst hd
+        obtain ⟨u, _, rfl⟩ := h.isComp c hc
+        -- x is joined to u and to v, hence v is joined to u: v would lie in the component of u
+        have h1 := component_is_connected edges u x hxc
+        have h2 := component_is_connected edges v x hxd
+        exact hv' _ hc (component_is_whole edges u v (Reach.trans h1 (Reach.symm h2)))
+
+/-- **the networks are the connected components**: every node of the graph lies in exactly one of the lists, each list is the set of
+nodes joined to its first node by a chain of links, and two lists share no node -/
+theorem components_partition (edges : List (Node × Node)) :
+    (∀ v ∈ nodesOf edges, ∃ c ∈ components edges, v ∈ c) ∧
+    (∀ c ∈ components edges, ∃ v ∈ nodesOf edges, ∀ w, w ∈ c ↔ Reach edges v w) ∧
+    (components edges).Pairwise (fun c d => ∀ x, x ∈ c → x ∉ d) := by
+  have h0 : CompInv edges [] [] := ⟨(by intro c hc; cases hc), (by intro v hv; cases hv), List.Pairwise.nil⟩
+  have h := components_fold edges (nodesOf edges) [] [] h0
+  simp only [List.nil_append] at h
+  refine ⟨h.covers, ?_, h.disjoint⟩
+  intro c hc
+  obtain ⟨v, hv, rfl⟩ := h.isComp c hc
+  exact ⟨v, hv, fun w => component_iff edges v w⟩
+
 /-- the group reported for the seed atom holds the seed atom's node in the home cell -/
 theorem seed_in_its_group (adjs : List Adj) (neigh : List Node) (seed : Nat) (g : Groups) (i : Nat)
     (h : findGraphs adjs neigh seed = some g) (hi : g.seedGroup = some i) : ∃ c, g.groups[i]? = some c ∧ (seed, ((0 : Int), (0 : Int), (0 : Int))) ∈ c := by
